@@ -43,6 +43,29 @@ fn parse_key(s: &str) -> Result<Key, String> {
     }).collect()
 }
 
+/// Any Sop (also one built from a redundant cube list): it denotes f by its cubes, by value()
+/// and by Lut::from.
+fn check_denotes(what: &str, n: usize, s: &Sop, f: &TT) -> Verdict {
+    if s.num_vars() != n {
+        return fail(format!("{}: num_vars = {}", what, n), format!("{}", s.num_vars()));
+    }
+    let ms: Vec<CubeM> = s.cubes().iter().map(abs_cube).collect();
+    for m in 0..nbits(n) {
+        let by_cubes = ms.iter().any(|c| c.value(m as u64));
+        if by_cubes != f.get(m) {
+            return fail(format!("{}: denotes [{}] (value {} on assignment {})", what, fmt_words(&f.w), f.get(m), m), format!("{} (value {})", s, by_cubes));
+        }
+        if s.value(m) != by_cubes {
+            return fail(format!("{}: value({}) = {} (OR of its cubes)", what, m, by_cubes), format!("{}", s.value(m)));
+        }
+    }
+    let l1 = Lut::from(s);
+    if l1.num_vars() != n || l1.blocks() != &f.w[..] {
+        return fail(format!("{}: Lut::from gives [{}]", what, fmt_words(&f.w)), format!("{}", l1));
+    }
+    Ok(())
+}
+
 /// A result of an operation: the right function, and a containment-irredundant cover.
 fn check_result(what: &str, n: usize, s: &Sop, f: &TT) -> Verdict {
     if s.num_vars() != n {
@@ -174,9 +197,65 @@ fn check_consts(n: usize) -> Verdict {
     }
 }
 
+/// `d.clone_from(&s)`: d an existing Sop over m variables (cubes b), s over n variables
+/// (cubes a). Afterwards d is s: same size, cubes, function; and it behaves as s in !, &, |.
+fn check_clone_from(n: usize, m: usize, a: &Key, b: &Key) -> Verdict {
+    let fa = denote_key(n, a);
+    let r = guarded(|| {
+        let s = sop_of(n, a);
+        let mut d = sop_of(m, b);
+        d.clone_from(&s);
+        check_denotes("after clone_from", n, &d, &fa)?;
+        if d != s || key_of(&d) != key_of(&s) {
+            return fail("after clone_from: equal to the source", format!("{} vs {}", d, s));
+        }
+        let l = Lut::from(&d);
+        if l.num_vars() != n || l.blocks() != &fa.w[..] {
+            return fail(format!("after clone_from: Lut::from = [{}] over {} variables", fmt_words(&fa.w), n), format!("n={} [{}]", l.num_vars(), fmt_words(l.blocks())));
+        }
+        check_result("!d after clone_from", n, &!&d, &fa.not())?;
+        check_result("d & s after clone_from", n, &(&d & &s), &fa)?;
+        check_result("s | d after clone_from", n, &(&s | &d), &fa)?;
+        Ok(())
+    });
+    match r {
+        Ok(v) => v,
+        Err(p) => fail("clone_from and the operations after it return", p),
+    }
+}
+
+fn mask_key(k: &Key, n: usize) -> Key {
+    let full = if n >= 32 { !0u32 } else { (1u32 << n) - 1 };
+    k.iter().map(|(p, q)| (p & full, q & full)).filter(|(p, q)| p & q == 0).collect()
+}
+
+/// One tour: conversions and operators at every ordered pair of sizes consecutively.
+pub fn tour(which: &str, k: usize, _thorough: bool) -> Result<super::xsize::Tour, String> {
+    if which != "sizes" || k != 0 {
+        return Err("no such tour".into());
+    }
+    let mut t = super::xsize::Tour::new("sizes:0");
+    let sizes: Vec<usize> = (0..=8).collect();
+    let ka: Key = vec![(0b1, 0b10), (0b100, 0), (0, 0b1001), (0b110000, 0b1)];
+    let kb: Key = vec![(0b10, 0), (0b1, 0b100), (0b1000000, 0b10)];
+    for s in super::xsize::size_pairs(&sizes) {
+        let tab = TT::from_fn(s, |m| crate::model::alpha::popcount(m) % 3 == 1 || m + 1 == nbits(s));
+        t.push(format!("Sop::from(&lut) n={}", s), move || check_from_lut(s, &tab));
+        for op in ["and", "or", "not"] {
+            let (a, b) = (mask_key(&ka, s), mask_key(&kb, s));
+            t.push(format!("{} n={}", op, s), move || check_op(s, &a, &b, op).map(|_| ()));
+        }
+    }
+    Ok(t)
+}
+
 pub fn replay(case: &Case) -> Result<Verdict, String> {
+    if case.get("kind")? == "tour" {
+        return super::xsize::replay(case, &tour);
+    }
     let n = case.usize("n")?;
     Ok(match case.get("kind")? {
+        "clonefrom" => check_clone_from(n, case.usize("m")?, &parse_key(case.get("a")?)?, &parse_key(case.get("b")?)?),
         "op" => check_op(n, &parse_key(case.get("a")?)?, &parse_key(case.get("b")?)?, case.get("op")?).map(|_| ()),
         "op32" => check_op32(&parse_key(case.get("a")?)?, &parse_key(case.get("b")?)?, case.get("op")?),
         "fromlut" => check_from_lut(n, &TT::from_words(n, &case.words("t")?).ok_or("t malformed")?),
@@ -640,6 +719,70 @@ pub fn run(run: &Run) {
             }
         });
     }
+    for n in 5..=if run.thorough() { 9usize } else { 8 } {
+        // every single-minterm table and pairs of minterms at the word ends: the smallest
+        // witnesses of a conversion that mishandles one bit position of a block
+        let nb = nbits(n);
+        let mut tabs: Vec<TT> = Vec::new();
+        for m in 0..nb {
+            let mut t = TT::zero(n);
+            t.set(m, true);
+            tabs.push(t);
+        }
+        for w in 0..crate::model::tt::nwords(n) {
+            for (a, b) in [(0usize, 63usize), (62, 63), (0, 1), (31, 32)] {
+                if w * 64 + b < nb {
+                    let mut t = TT::zero(n);
+                    t.set(w * 64 + a, true);
+                    t.set(w * 64 + b, true);
+                    tabs.push(t.clone());
+                    if n <= 7 {
+                        tabs.push(t.not());
+                    }
+                }
+            }
+        }
+        let total = tabs.len() as u64;
+        run.section(&format!("CONVERSION n={}: every single-minterm table, minterm pairs at block ends and their complements", n), false, "all 2^n weight-1 tables; weight-2 tables at positions (0,63) (62,63) (0,1) (31,32) of every block (and their complements for n<=7)", total, 8, |r, l| {
+            for k in r {
+                let t = &tabs[k as usize];
+                l.states += 1;
+                l.transitions += 1;
+                l.validated += 1;
+                match check_from_lut(n, t) {
+                    Ok(()) => {
+                        l.nontrivial += 1;
+                        l.digest ^= crate::engine::mix3(k, n as u64, 0x10f);
+                    }
+                    Err(v) => l.violation(format!("{:02}|fromlut|{}", n, fmt_words(&t.w)), "C14/from_lut", format!("kind=fromlut;n={};t={}", n, fmt_words(&t.w)), v.0, v.1),
+                }
+            }
+        });
+    }
+    run.section_seq("CLONE_FROM Sop: every ordered pair of sizes 0..=6 x cube lists", false, "destination over m variables (3 cube lists) overwritten from a source over n variables (4 cube lists): size, cubes, table, then !, &, |", |l| {
+        let srcs: Vec<Key> = vec![vec![], vec![(0, 0)], vec![(0b1, 0b10), (0b100, 0)], vec![(0b11, 0), (0, 0b101), (0b10000, 0b1)]];
+        let dsts: Vec<Key> = vec![vec![], vec![(0, 0)], vec![(0b1, 0), (0b10, 0b1), (0, 0b100)]];
+        for n in 0..=6usize {
+            for m in 0..=6usize {
+                for a in &srcs {
+                    for b in &dsts {
+                        let (a2, b2) = (mask_key(a, n), mask_key(b, m));
+                        l.states += 1;
+                        l.transitions += 1;
+                        l.validated += 1;
+                        match check_clone_from(n, m, &a2, &b2) {
+                            Ok(()) => {
+                                l.nontrivial += (n != m) as u64;
+                                l.digest ^= crate::engine::mix3(n as u64, m as u64, a2.len() as u64 * 8 + b2.len() as u64);
+                            }
+                            Err(v) => l.violation(format!("clonefrom|{}|{}|{}|{}", n, m, show_key(&a2), show_key(&b2)), "C14/clone_from", format!("kind=clonefrom;n={};m={};a={};b={}", n, m, show_key(&a2), show_key(&b2)), v.0, v.1),
+                        }
+                    }
+                }
+            }
+        }
+    });
+    super::xsize::run_tours(run, "C14", "sizes (Sop::from(&lut), &, |, ! at every ordered pair of sizes 0..=8 consecutively)", "results must not depend on what was computed before on the thread", 1, &|k| tour("sizes", k, false).unwrap());
     for n in 0..=3usize {
         closure(run, n, n <= 2, run.thorough() && n <= 3 || n <= 2);
     }
